@@ -163,6 +163,15 @@ Section Loops.
     apply (G l [] u). reflexivity.
   Qed.
 
+  (* the same scan with a flag instead of for/else:  flag = b0; for y in l: if p(y): flag = c; break *)
+  Lemma scan_flag {A} (p : A -> bool) (c : bool) (body : A -> bool -> M (ctl bool)) (s : st W) :
+    (forall y b, body y b s = Some ((if p y then Break c else Next b), s)) ->
+    forall l b, for_ctl l body b s = Some ((if existsb p l then Break c else Next b), s).
+  Proof.
+    intros H l; induction l as [|y l IH]; intros b; cbn; [reflexivity|].
+    unfold bind. rewrite H. destruct (p y); cbn; [reflexivity|apply IH].
+  Qed.
+
   Lemma any_existsb {A} (p : A -> bool) (f : A -> M bool) (s : st W) :
     (forall y, f y s = Some (p y, s)) ->
     forall l, anyM f l s = Some (existsb p l, s).
@@ -289,6 +298,9 @@ Section Value.
         rewrite (@scan_any_idx VWi _ (similar x) b s l) by (intros; crush_with rew_m)
     | |- context [for_ctl ?l ?b ?u ?s] =>
         rewrite (@scan_any VWi _ (similar x) b s) by (intros; crush_with rew_m)
+    | |- context [for_ctl ?l ?b ?u ?s] =>
+        first [ rewrite (@scan_flag VWi _ (similar x) false b s) by (intros; crush_with rew_m)
+              | rewrite (@scan_flag VWi _ (similar x) true b s) by (intros; crush_with rew_m) ]
     | |- context [anyM ?f ?l ?s] =>
         rewrite (@any_existsb VWi _ (similar x) f s) by (intros; crush_with rew_m)
     end.
@@ -429,6 +441,9 @@ Section HeapLevel.
         rewrite (@scan_any_idx HWi _ (hsim sim hp x) b (hp, a) l) by (intros; crush_with rew_h)
     | |- context [for_ctl ?l ?b ?u (?hp, ?a)] =>
         rewrite (@scan_any HWi _ (hsim sim hp x) b (hp, a)) by (intros; crush_with rew_h)
+    | |- context [for_ctl ?l ?b ?u (?hp, ?a)] =>
+        first [ rewrite (@scan_flag HWi _ (hsim sim hp x) false b (hp, a)) by (intros; crush_with rew_h)
+              | rewrite (@scan_flag HWi _ (hsim sim hp x) true b (hp, a)) by (intros; crush_with rew_h) ]
     | |- context [anyM ?f ?l (?hp, ?a)] =>
         rewrite (@any_existsb HWi _ (hsim sim hp x) f (hp, a)) by (intros; crush_with rew_h)
     end.
@@ -522,6 +537,6 @@ Lemma gen_methods_v :
   (forall m pop, @gen_hof_update (VW ind fitness similar) m pop h = lift_u (hof_update ind fitness similar m h pop)) /\
   (forall pop, @gen_pf_update (VW ind fitness similar) pop h = lift_u (pf_update ind fitness similar h pop)).
 Proof.
-  intros. repeat split; intros;
+  intros. split; [|split; [|split; [|split]]]; intros;
     [apply gen_insert_v | apply gen_remove_v | apply gen_clear_v | apply gen_hof_update_v | apply gen_pf_update_v].
 Qed.
